@@ -409,6 +409,13 @@ func writeElementToken(encoder *xml.Encoder, elem xsel.Cursor) error {
 		},
 	}
 
+	// The encoder declares xmlns="..." on every element that has a
+	// namespace, but never resets it: an element without a namespace inside
+	// one with a namespace needs xmlns="" to stay outside that namespace.
+	if parent, ok := elem.Parent().Node().(xsel.Element); ok && n.Space() == "" && parent.Space() != "" {
+		t.Attr = append(t.Attr, xml.Attr{Name: xml.Name{Local: "xmlns"}, Value: ""})
+	}
+
 	for _, i := range elem.Attributes() {
 		attr := i.Node().(xsel.Attribute)
 		attrTok := xml.Attr{
